@@ -234,6 +234,49 @@ def check_lp_trunc(case):
     return {'nontrivial': len(items) >= 2, 'labels': ['p=%d' % p]}
 
 
+@st.composite
+def conc_case(draw):
+    n = draw(st.integers(2, 3))
+    kind = draw(st.sampled_from(['line', 'lp']))
+    p = draw(st.sampled_from([1, 2, 4]))
+    streams = []
+    for _ in range(n):
+        if kind == 'line':
+            items = draw(st.lists(TEXT, max_size=5))
+            total = sum(len(i) + 1 for i in items)
+        else:
+            items = [b.hex() for b in draw(st.lists(BYTES, max_size=5))]
+            total = sum(len(i) // 2 + p for i in items)
+        streams.append({'items': items, 'cuts': sorted(draw(st.lists(st.integers(0, total), max_size=6)))})
+    return {'kind': kind, 'prefix': p, 'streams': streams, 'sched': draw(st.lists(st.integers(0, 5), max_size=30)),
+            'shared_op': draw(st.booleans())}
+
+
+def check_concurrent(case):
+    """Several unframe subscriptions alive at once with interleaved chunks: the carry-over buffers are per subscription."""
+    ctx = dict(case)
+    kind, p = case['kind'], case['prefix']
+    chunk_lists, wanted = [], []
+    for s_ in case['streams']:
+        if kind == 'line':
+            items = s_['items']
+            stream = ''.join(_frame_lines(items))
+        else:
+            items = [h2b(i) for i in s_['items']]
+            stream = b''.join(_frame_lp(items, p, 'little'))
+        wanted.append(items)
+        chunk_lists.append(chunk(stream, s_['cuts']))
+    shared = line.unframe() if kind == 'line' else lp.unframe(prefix_size=p, byteorder='little')
+    fresh = (lambda k: line.unframe()) if kind == 'line' else (lambda k: lp.unframe(prefix_size=p, byteorder='little'))
+    rs_ = drive.interleaved(chunk_lists, (lambda k: shared) if case['shared_op'] else fresh, case['sched'])
+    for k, r in enumerate(rs_):
+        if r.error is not None or r.raised is not None or r.completed != 1:
+            raise Violation('unframe of stream %d (of %d concurrent ones) failed' % (k, len(rs_)), result=r.brief(), **ctx)
+        if r.items != wanted[k]:
+            raise Violation('stream %d unframed concurrently with others differs from its items' % k, expected=wanted[k], got=r.items, **ctx)
+    return {'nontrivial': sum(1 for w in wanted if len(w) >= 2) >= 2, 'labels': [kind, 'shared-op' if case['shared_op'] else 'own-op']}
+
+
 def subs(tier):
     return [
         Sub('line', check_line, gen=line_case, examples={'quick': 3000, 'thorough': 300000},
@@ -247,6 +290,8 @@ def subs(tier):
         Sub('lp_trunc', check_lp_trunc, gen=lambda: lp_case(with_cuts=False, max_items=4),
             examples={'quick': 150, 'thorough': 6000},
             doc='every truncation point: only complete frames are delivered, fed whole / in two / byte by byte'),
+        Sub('concurrent', check_concurrent, gen=conc_case, examples={'quick': 600, 'thorough': 40000},
+            doc='2-3 unframe subscriptions alive at once (own or shared operator objects), chunks delivered interleaved'),
     ] + ([] if tier != 'thorough' else [
         Sub('fuzz_line', check_line, fuzz='c15_line', fuzz_runs={'thorough': 960000},
             doc='atheris/libFuzzer coverage-guided campaign on line framing (same case format and oracle as sub line)'),
